@@ -930,11 +930,15 @@ impl TypeLayout {
     }
 
     pub fn assume_type_of_self(self, user_data: &AssocFileData) -> TypeLayout {
+        // outside of a class there is no class `Self` could stand for: the type stays as it is
+        // and whoever uses it reports that.
         if self.is_class_self() {
-            TypeLayout::Class(user_data.get_type_of_executing_class().unwrap().clone())
-        } else {
-            self
+            if let Some(class_type) = user_data.get_type_of_executing_class() {
+                return TypeLayout::Class(class_type.clone());
+            }
         }
+
+        self
     }
 
     pub fn update_all_references_to_class_self(&self, class_type: ClassType) -> TypeLayout {
